@@ -494,7 +494,7 @@ func autoNames(c *Case, p *Prediction) {
 func sample(l []*Case, every int) []*Case {
 	var out []*Case
 	for i, c := range l {
-		if i%every == 0 {
+		if i%every == 0 && c.Cfg.Fmt == "" { // (a case that fixes its formatter is not one to compare formatters on)
 			c.RunFmts = true
 			c.Judge = append(c.Judge, "C16")
 			out = append(out, c)
